@@ -362,6 +362,21 @@ pub struct Disagreement {
     pub right: Option<AffQ>,
 }
 
+impl Disagreement {
+    /// Interior points of the region: the centre and the centre moved by rho/2 along every axis.
+    /// Two different affine maps cannot agree on all of them (n+1 affinely independent points).
+    pub fn candidate_points(&self) -> Vec<Vec<Q>> {
+        let mut out = vec![self.point.clone()];
+        let h = self.rho.mul(&Q::ratio(1, 2));
+        for j in 0..self.point.len() {
+            let mut p = self.point.clone();
+            p[j] = p[j].add(&h);
+            out.push(p);
+        }
+        out
+    }
+}
+
 #[derive(Default, Debug, Clone)]
 pub struct WalkStats {
     pub cells: u64,
@@ -494,4 +509,112 @@ pub fn count_fat_leaves(t: &ModelTree, stats: &mut WalkStats) -> usize {
         }
     }
     rec(t.in_dim, &t.root, &mut Vec::new(), stats)
+}
+
+#[cfg(test)]
+mod tests {
+    use super::*;
+    use crate::prng::Prng;
+
+    fn rand_aff(rng: &mut Prng, indim: usize, outdim: usize) -> AffQ {
+        AffQ {
+            indim,
+            mat: (0..outdim).map(|_| (0..indim).map(|_| Q::ratio(rng.range(-4, 4), 2)).collect()).collect(),
+            bias: (0..outdim).map(|_| Q::ratio(rng.range(-4, 4), 2)).collect(),
+        }
+    }
+
+    fn rand_tree(rng: &mut Prng, indim: usize, outdim: usize, depth: usize) -> RTree {
+        if depth == 0 || rng.chance(1, 4) {
+            return if rng.chance(1, 6) { RTree::Undef } else { RTree::Leaf(rand_aff(rng, indim, outdim)) };
+        }
+        let pred = Row { a: (0..indim).map(|_| Q::int(rng.range(-2, 2))).collect(), b: Q::ratio(rng.range(-4, 4), 2) };
+        RTree::Node { pred, c0: Box::new(rand_tree(rng, indim, outdim, depth - 1)), c1: Box::new(rand_tree(rng, indim, outdim, depth - 1)) }
+    }
+
+    fn lattice(dim: usize) -> Vec<Vec<Q>> {
+        let vals: Vec<Q> = (-6..=6).map(|k| Q::ratio(k, 4)).collect();
+        let mut pts: Vec<Vec<Q>> = vec![vec![]];
+        for _ in 0..dim {
+            let mut next = Vec::new();
+            for p in &pts {
+                for v in &vals {
+                    let mut q = p.clone();
+                    q.push(v.clone());
+                    next.push(q);
+                }
+            }
+            pts = next;
+        }
+        pts
+    }
+
+    #[test]
+    fn compose_and_lift_are_pointwise() {
+        let mut rng = Prng::new(11);
+        for _ in 0..200 {
+            let d = 1 + rng.below(2);
+            let m = 1 + rng.below(2);
+            let o = 1 + rng.below(2);
+            let a = ModelTree { in_dim: d, root: rand_tree(&mut rng, d, m, 2) };
+            let b = ModelTree { in_dim: m, root: rand_tree(&mut rng, m, o, 2) };
+            let c = a.compose(&b).unwrap();
+            let a2 = ModelTree { in_dim: d, root: rand_tree(&mut rng, d, m, 2) };
+            let s = a.lift(&a2, BinKind::Add).unwrap();
+            let g = rand_aff(&mut rng, m, o);
+            let ap = a.apply_func(&g).unwrap();
+            for x in lattice(d) {
+                assert_eq!(c.root.eval(&x), a.root.eval(&x).and_then(|y| b.root.eval(&y)));
+                let want = match (a.root.eval(&x), a2.root.eval(&x)) {
+                    (Some(u), Some(v)) => Some(u.iter().zip(&v).map(|(p, q)| p.add(q)).collect::<Vec<Q>>()),
+                    _ => None,
+                };
+                assert_eq!(s.root.eval(&x), want);
+                assert_eq!(ap.root.eval(&x), a.root.eval(&x).map(|y| g.apply(&y)));
+            }
+        }
+    }
+
+    #[test]
+    fn walk_agrees_with_lattice_evaluation() {
+        // If the walk reports no disagreement, the two trees agree on every lattice point that
+        // lies in the interior of a cell; if it reports one, they differ at the reported point.
+        let mut rng = Prng::new(5);
+        let mut found = 0;
+        for it in 0..300 {
+            let d = 1 + rng.below(2);
+            let a = ModelTree { in_dim: d, root: rand_tree(&mut rng, d, 1, 3) };
+            // b: a copy with one leaf changed / removed, or an independent tree
+            let b = if it % 3 == 0 {
+                ModelTree { in_dim: d, root: rand_tree(&mut rng, d, 1, 3) }
+            } else {
+                a.clone()
+            };
+            let mut st = WalkStats::default();
+            match walk(&a, &b, &mut st) {
+                Some(dis) => {
+                    found += 1;
+                    assert!(
+                        dis.candidate_points().iter().any(|p| a.root.eval(p) != b.root.eval(p)),
+                        "no candidate point separates the two trees"
+                    );
+                }
+                None => {
+                    for x in lattice(d) {
+                        if a.root.eval(&x) != b.root.eval(&x) {
+                            // allowed only on a lower-dimensional set: some predicate of a or b is tight at x
+                            fn tight(t: &RTree, x: &[Q]) -> bool {
+                                match t {
+                                    RTree::Node { pred, c0, c1 } => dot(&pred.a, x) == pred.b || tight(c0, x) || tight(c1, x),
+                                    _ => false,
+                                }
+                            }
+                            assert!(tight(&a.root, &x) || tight(&b.root, &x), "walk missed a full-dimensional disagreement at {x:?}");
+                        }
+                    }
+                }
+            }
+        }
+        assert!(found > 20);
+    }
 }
